@@ -7,6 +7,7 @@ package mon
 import (
 	"encoding/json"
 	"fmt"
+	"os"
 	"sort"
 	"sync"
 	"time"
@@ -72,7 +73,7 @@ func (b *B) N(quick, thorough int) int {
 	if b.Boost > 1 {
 		q *= b.Boost
 	}
-	if b.Thorough() {
+	if b.Thorough() && os.Getenv("VERIF_QUICK_COUNTS") == "" {
 		t := q * ThoroughScale
 		if thorough > t {
 			t = thorough
